@@ -112,3 +112,56 @@ def fold_defs(func, names, env, funcs=None, consts=None, hook=None, upto=None) -
             if kind == "raise":
                 raise Raised(val)
     return ev.locals
+
+
+def bindings(binders, filters, env, funcs=None, consts=None, hook=None, defs=None):
+    """All bindings of the loop variables `binders` (nested, in order) under `env` for which `filters` hold.
+    Yields dicts of the bound locals."""
+    ev = Evaluator(env, funcs=funcs, consts=consts, hook=hook, defs=defs)
+
+    def rec(i):
+        if i == len(binders):
+            for f, pol in filters:
+                if bool(ev.ev(f)) != pol:
+                    return
+            yield dict(ev.locals)
+            return
+        tgt, it = binders[i]
+        saved = dict(ev.locals)
+        for item in list(ev.ev(it)):
+            ev.locals = dict(saved)
+            ev._assign(tgt, item)
+            yield from rec(i + 1)
+        ev.locals = saved
+
+    yield from rec(0)
+
+
+def site_values(site, env, varval, funcs=None, atomval=None, tableval=None, consts=None, hook=None, defs=None, skip_binders=0):
+    """Value of a constraint site's normal form (canonical `L <= 0` / `L == 0`) for every binding of its loops."""
+    out = []
+    for loc in bindings(site.binders[skip_binders:], site.filters, env, funcs, consts, hook, defs):
+        e = dict(env)
+        e.update(loc)
+        le = LinEval(e, varval, funcs=funcs, atomval=atomval, tableval=tableval, consts=consts, hook=hook)
+        le.ev.defs = dict(defs or {})
+        out.append((loc, le.lin(site.lin)))
+    return out
+
+
+def scatter_value(model, table, key, env, varval, funcs=None, consts=None, hook=None, defs=None, atomval=None):
+    """Value accumulated in a scatter table under `key`: sum over all `T[k] += v` sites whose key equals `key`."""
+    total = 0.0
+    for s in model.scatter(table):
+        if s["init"]:
+            continue
+        for loc in bindings(s["binders"], s["filters"], env, funcs, consts, hook, defs):
+            e = dict(env)
+            e.update(loc)
+            kev = Evaluator(e, funcs=funcs, consts=consts, hook=hook, defs=defs)
+            if kev.ev(s["key"]) != key:
+                continue
+            le = LinEval(e, varval, funcs=funcs, consts=consts, hook=hook, atomval=atomval)
+            le.ev.defs = dict(defs or {})
+            total += le.lin(s["lin"])
+    return total
